@@ -565,8 +565,12 @@ impl Rig {
     /// leave its loop (a real worker) and, if `noticed`, for the hub to report it stopped.
     pub fn kill_worker(&mut self, idx: usize, noticed: bool) -> Result<(), String> {
         let fd = self.workers[idx].worker_fd;
-        unsafe {
-            libc::shutdown(fd, libc::SHUT_RDWR);
+        // a worker thread that already ended has closed its descriptor (the number may be somebody else's by now)
+        let gone = self.workers[idx].kind == Kind::Real && self.workers[idx].join.as_ref().map(|j| j.is_finished()).unwrap_or(true);
+        if !gone {
+            unsafe {
+                libc::shutdown(fd, libc::SHUT_RDWR);
+            }
         }
         self.workers[idx].killed = true;
         if let Some(m) = self.workers[idx].mute.take() {
